@@ -690,6 +690,13 @@ class H2Server:
                     if n <= 0 and pos < len(data):
                         break
                     end = pos + n >= len(data) and not p["resp"].trailers
+                    ee = self.script.get("empty_every")
+                    if ee:
+                        # zero-length DATA frames without END_STREAM in the middle of a body are legal (RFC 9113 6.1;
+                        # gRPC stacks and some proxies send them)
+                        p["nframes"] = p.get("nframes", 0) + 1
+                        if p["nframes"] % ee == 0:
+                            self.conn.send_data(sid, b"", end_stream=False)
                     self.conn.send_data(sid, data[pos:pos + n], end_stream=end, pad_length=pad)
                     pos += n
                     p["pos"] = pos
